@@ -184,6 +184,23 @@ func (c c01Config) GetAddCountsToRoot() bool {
 	return c.AddCountsToRoot
 }
 
+// c01SpanID extracts the harness's span id from a hook event that carries the span.
+func c01SpanID(kv []any) int {
+	sp, _ := c01kv(kv, "span").(*types.Span)
+	if sp == nil {
+		return -1
+	}
+	switch v := sp.Data.Get("sid").(type) {
+	case int:
+		return v
+	case int64:
+		return int(v)
+	case float64:
+		return int(v)
+	}
+	return -1
+}
+
 func c01Map(v any) map[string]any { m, _ := v.(map[string]any); return m }
 
 // describe projects a forwarded span into the record shape of Collector!Merged.
@@ -285,6 +302,10 @@ func (h *c01Harness) Reset(init map[string]any) error {
 	}
 	h.epoch = verifkit.Int(init, "epoch")
 
+	qcap := verifkit.Int(p, "qcap") // queue capacity per collector (Admission.tla); large otherwise
+	if qcap == 0 {
+		qcap = 1000
+	}
 	h.conf = &config.MockConfig{
 		GetTracesConfigVal: config.TracesConfig{
 			SendTicker:       config.Duration(h.tick),
@@ -300,7 +321,7 @@ func (h *c01Harness) Reset(init map[string]any) error {
 		ParentIdFieldNames: []string{"trace.parent_id"},
 		GetCollectionConfigVal: config.CollectionConfig{
 			WorkerCount: h.nwork, ShutdownDelay: config.Duration(time.Millisecond),
-			IncomingQueueSize: 1000, PeerQueueSize: 1000, HealthCheckTimeout: config.Duration(time.Hour * 100000),
+			IncomingQueueSize: qcap, PeerQueueSize: qcap, HealthCheckTimeout: config.Duration(time.Hour * 100000),
 		},
 	}
 	h.applyCfg(c01Map(init["cfg"]))
